@@ -911,30 +911,58 @@ func ruleP6(c *Ctx) *RuleResult {
 	}
 	// (b) fileDisk.Remove removes the path given to os.Create
 	if rm, nf := c.Method("pkg/storage", "fileDisk", "Remove"), c.Func("pkg/storage", "newFileDisk"); rm != nil && nf != nil {
-		fpath := c.Field("pkg/storage", "fileDisk", "fpath")
-		okRm := false
-		allInstrs(rm, func(in ssa.Instruction) {
-			if call, ok := in.(*ssa.Call); ok && isFuncNamed(call.Call.StaticCallee(), "os", "Remove") {
-				if f, _ := loadedField(call.Call.Args[0]); f == fpath {
-					okRm = true
-				}
-			}
-		})
-		okCreate := false
+		// the path field: the field of the file object that receives the argument of os.Create / os.OpenFile
 		var created ssa.Value
 		allInstrs(nf, func(in ssa.Instruction) {
-			if call, ok := in.(*ssa.Call); ok && isFuncNamed(call.Call.StaticCallee(), "os", "Create") {
+			if call, ok := in.(*ssa.Call); ok && (isFuncNamed(call.Call.StaticCallee(), "os", "Create") || isFuncNamed(call.Call.StaticCallee(), "os", "OpenFile")) {
 				created = call.Call.Args[0]
 			}
 		})
+		var fpath *types.Var
+		okCreate := false
 		allInstrs(nf, func(in ssa.Instruction) {
-			if st, ok := in.(*ssa.Store); ok {
-				if f, _ := fieldOfAddr(st.Addr); f == fpath && st.Val == created {
+			if st, ok := in.(*ssa.Store); ok && created != nil && st.Val == created {
+				if f, _ := fieldOfAddr(st.Addr); f != nil {
+					fpath = f
 					okCreate = true
 				}
 			}
 		})
-		if okRm && okCreate {
+		okRm := false
+		nRemove := 0
+		allInstrs(rm, func(in ssa.Instruction) {
+			if call, ok := in.(*ssa.Call); ok && isFuncNamed(call.Call.StaticCallee(), "os", "Remove") {
+				nRemove++
+				if f, _ := loadedField(call.Call.Args[0]); f != nil && f == fpath {
+					okRm = true
+				}
+			}
+		})
+		// the file starts empty: os.Create, or os.OpenFile with O_TRUNC or O_EXCL
+		allInstrs(nf, func(in ssa.Instruction) {
+			call, ok := in.(*ssa.Call)
+			if !ok {
+				return
+			}
+			what := "a new disk file starts empty (parts are written at offsets: a longer stale file under the same name would keep its tail)"
+			switch {
+			case isFuncNamed(call.Call.StaticCallee(), "os", "Create"):
+				r.ok("fileDisk|created-empty", c.Pos(call.Pos()), FuncName(nf), what, "os.Create truncates")
+			case isFuncNamed(call.Call.StaticCallee(), "os", "OpenFile"):
+				flags, isK := constInt(call.Call.Args[1])
+				const oTRUNC, oEXCL = 0x200, 0x80 // linux values of os.O_TRUNC, os.O_EXCL
+				if isK && (flags&oTRUNC != 0 || flags&oEXCL != 0) {
+					r.ok("fileDisk|created-empty", c.Pos(call.Pos()), FuncName(nf), what, "O_TRUNC / O_EXCL set")
+				} else if isK {
+					r.fail("fileDisk|created-empty", c.Pos(call.Pos()), FuncName(nf), what, "os.OpenFile without O_TRUNC or O_EXCL: the file reader returns the new bytes followed by the stale tail of an older, longer file of the same name")
+				} else {
+					r.undecided("P6: fileDisk|created-empty: the flags of os.OpenFile are not constant")
+				}
+			}
+		})
+		if created == nil || nRemove == 0 {
+			r.undecided("P6: fileDisk|remove-created-path: no os.Create in newFileDisk or no os.Remove in Remove: form not known to the rule")
+		} else if okRm && okCreate {
 			r.ok("fileDisk|remove-created-path", c.Pos(rm.Pos()), FuncName(rm), "Remove deletes exactly the path that was created", "os.Remove(s.fpath), fpath = argument of os.Create")
 		} else {
 			r.fail("fileDisk|remove-created-path", c.Pos(rm.Pos()), FuncName(rm), "Remove deletes exactly the path that was created", fmt.Sprintf("os.Remove(fpath): %v; fpath is the created path: %v", okRm, okCreate))
